@@ -19,6 +19,7 @@
 #include <hgraph/lib/testing/record_replay.h>
 
 #include <array>
+#include <deque>
 #include <memory>
 
 using namespace hgraph;
@@ -283,6 +284,37 @@ namespace
                 st.set(x.value());
                 sched.schedule(now + MIN_TD * d.value(), "e");
                 log_req(id.value(), self, now, now + MIN_TD * d.value(), "e");
+            }
+            log.emit();
+        }
+    };
+
+
+    // echo every input d steps later (untagged schedules accumulate: several echoes may be pending at once, so the node
+    // relies on the engine re-arming its earliest pending time after an input-driven evaluation)
+    thread_local std::map<std::pair<const void *, std::size_t>, std::deque<std::pair<long, long>>> g_echo_queues;
+    struct VEcho
+    {
+        static constexpr auto name = "v_echo";
+        static void           start(NodeView self) { g_echo_queues[{self.graph().data(), self.node_index()}].clear(); }
+        static void eval(Scalar<"id", Int> id, Scalar<"d", Int> d, In<"x", TS<Int>> x, NodeScheduler sched, NodeView self, DateTime now,
+                         Out<TS<Int>> out)
+        {
+            auto &q = g_echo_queues[{self.graph().data(), self.node_index()}];
+            FnLog log(id.value(), self, now);
+            log.ins({in_rec(x)});
+            const long k = to_k(now);
+            if (!q.empty() && q.front().first == k)
+            {
+                out.set(Int{q.front().second});
+                log.out(q.front().second);
+                q.pop_front();
+            }
+            if (x.modified())
+            {
+                q.emplace_back(k + d.value(), static_cast<long>(x.value()));
+                sched.schedule(now + MIN_TD * d.value());
+                log_req(id.value(), self, now, now + MIN_TD * d.value());
             }
             log.emit();
         }
@@ -735,6 +767,7 @@ namespace
 
     P resolve(Env &env, const std::string &ref)
     {
+        if (ref.rfind("p:", 0) == 0) { return passive(resolve(env, ref.substr(2))); }   // this usage does not activate the consumer
         if (ref == "key") { return *env.key; }
         if (!ref.empty() && ref[0] == 'a') { return env.args.at(std::stoul(ref.substr(1))); }
         auto it = env.ports.find(std::stol(ref));
@@ -864,7 +897,9 @@ namespace
             {
                 for (auto &r : sp.ins) { in.push_back(resolve(env, r)); }
             }
-            const Int sid{id};
+            // `sameas=<id>`: this statement wires the very same definition with the very same scalars as statement <id>
+            // (so the two are candidates for sharing one instance); its port is still registered under its own id
+            const Int sid{l.has("sameas") ? l.geti("sameas") : id};
             if (kind == "src") { env.ports.emplace(id, wire<VSrc>(w, sid)); }
             else if (kind == "pass") { env.ports.emplace(id, wire<VPass>(w, sid, in.at(0))); }
             else if (kind == "add") { env.ports.emplace(id, wire<VAdd>(w, sid, Int{l.geti("k", 1)}, in.at(0))); }
@@ -873,6 +908,7 @@ namespace
             else if (kind == "sample") { env.ports.emplace(id, wire<VSample>(w, sid, in.at(0), in.at(1))); }
             else if (kind == "acc") { env.ports.emplace(id, wire<VAcc>(w, sid, in.at(0))); }
             else if (kind == "count") { env.ports.emplace(id, wire<VCount>(w, sid, in.at(0))); }
+            else if (kind == "echo") { env.ports.emplace(id, wire<VEcho>(w, sid, Int{l.geti("d", 1)}, in.at(0))); }
             else if (kind == "delay") { env.ports.emplace(id, wire<VDelay>(w, sid, Int{l.geti("d", 1)}, in.at(0))); }
             else if (kind == "timer") { env.ports.emplace(id, wire<VTimer>(w, sid, Int{l.geti("p", 1)}, Int{l.geti("cnt", 1)})); }
             else if (kind == "throwneg") { env.ports.emplace(id, wire<VThrowNeg>(w, sid, in.at(0))); }
